@@ -39,6 +39,10 @@ for m in MUTANTS:
         shutil.rmtree(d, ignore_errors=True)
         shutil.rmtree("/tmp/vp-replays-" + m["prop"], ignore_errors=True)
     print("%s %-40s %s" % res[-1], flush=True)
+import json
+if not sel and not name:
+    json.dump([{"property": r[0], "mutant": r[1], "result": r[2].split("  [")[0], "first_violation": (r[2].split("  [", 1)[1].rstrip("]") if "  [" in r[2] else "")[:200]} for r in res],
+              open(os.path.join(VERIF, "tools", "senstest-results.json"), "w"), indent=1)
 bad = [r for r in res if not r[2].startswith("killed")]
 print("%d mutants, %d not killed" % (len(res), len(bad)))
 sys.exit(1 if bad else 0)
